@@ -6,7 +6,8 @@ import SqlObjVerif.Model.DrvUtil
 Request: `ddl <dialect> <micro> <maxTypes> <decl…>` (grammar in harness/c14.py `enc_decl`).
 Answer: `<create table text | !> <n constraints> <c1> … <join tables text> <indexes text> <skeleton>`; strings as
 `.`-joined hex code points.  `skel <bs> <text>` answers the reader's skeleton of any text.
-`link <a> <b>` answers whether class `a` creates the link table of a join with `b`. -/
+`link <a> <b>` answers whether class `a` creates the link table of a join with `b`;
+`own <clsA> <tblA> <clsB> <tblB>`: `<A creates> <A drops>` by the extracted ownership tests. -/
 open SqlObjVerif SqlObjVerif.Ddl SqlObjVerif.DrvUtil
 
 abbrev P := StateT (List String) Option
@@ -186,6 +187,14 @@ def handle (line : String) : String :=
     match decodeCps? text with
     | some t => showSkel (skeleton (bs == "1") t) ++ " " ++ showRefs (inlineRefs (bs == "1") t)
     | none => "bad-request"
+  | ["own", ca, ta, cb, tb] =>
+    match decodeCps? ca, decodeCps? ta, decodeCps? cb, decodeCps? tb with
+    | some ca, some ta, some cb, some tb =>
+      let a : ClsNames := ⟨ca, ta⟩
+      let b : ClsNames := ⟨cb, tb⟩
+      (if sideActs SqlObjVerif.Ddl.Extracted.linkCreateKey a b then "1" else "0") ++ " " ++
+        (if sideActs SqlObjVerif.Ddl.Extracted.linkDropKey a b then "1" else "0")
+    | _, _, _, _ => "bad-request"
   | ["link", a, b] =>
     match decodeCps? a, decodeCps? b with
     | some a, some b => if createsLink a b then "1" else "0"
